@@ -51,6 +51,7 @@ func checkC07(c *Ctx) {
 	r.Rule("C07.c", "one ParseState is folded over the files and returned by ParseAll", 2)
 	r.Rule("C07.d", "output naming closed form (part of transpileOne, C07.c); single write path", 2)
 	r.Rule("C07.e", "written package-level variables are exactly the inventoried ones, each by its writers", 4)
+	r.Rule("C07.e2", "package-level variables holding shared mutable storage (map/pointer/slice) are exactly the inventoried ones, and each occurrence is the direct operand of a lookup or of its frozen writer — never stored into a value, returned or passed on (an alias would be state shared by every definition that receives it)", 5)
 	r.Rule("C07.f", "per-scope tables are written only by declaration registration", 5)
 	r.Rule("C07.g", "type-instance keys are registered where they are constructed", 6)
 
@@ -151,6 +152,8 @@ func checkC07(c *Ctx) {
 			r.Undecided("C07.e", g, "new-written-global", "fc", "package-level variable "+g+" is written by "+strings.Join(sortedKeysB(writers[g]), ", ")+": state that survives between definitions and is not in the inventory")
 		}
 	}
+	// (e2) shared mutable storage: package-level variables whose type holds a map, pointer, slice or channel
+	checkMutableGlobals(c, f)
 	// lastTkz readers: diagnostics only
 	var readers []string
 	for _, fn := range f.Prog.Funcs {
@@ -290,6 +293,101 @@ func rootGlobal(t ir.Term) *ir.Global {
 			t = x.X
 		default:
 			return nil
+		}
+	}
+}
+
+
+// mutable package-level storage of fc and what each may be used for (frozen, one reason each)
+var mutableGlobals = map[string]string{
+	"keywordMap":      "constant table: keyword spelling -> token (read by index only)",
+	"binOpMap":        "constant table: operator token -> rank, Go operator (read by index only)",
+	"binOpMapWrapper": "dict view of binOpMap for lookupBinOp (read by dict.TryFind only)",
+	"g_recInfoDic":    "record instance -> fields; written only by updateRecInfo (C07.e), read by lookupRecInfo",
+	"g_uniInfoDic":    "union instance -> cases; written only by updateUniInfo (C07.e), read by lookupUniInfo",
+}
+
+func typeHoldsMutable(t types.Type, depth int) bool {
+	if depth > 6 || t == nil {
+		return false
+	}
+	switch x := t.(type) {
+	case *types.Map, *types.Pointer, *types.Slice, *types.Chan:
+		return true
+	case *types.Named:
+		return typeHoldsMutable(x.Underlying(), depth+1)
+	case *types.Alias:
+		return typeHoldsMutable(types.Unalias(x), depth+1)
+	case *types.Struct:
+		for i := 0; i < x.NumFields(); i++ {
+			if typeHoldsMutable(x.Field(i).Type(), depth+1) {
+				return true
+			}
+		}
+	case *types.Array:
+		return typeHoldsMutable(x.Elem(), depth+1)
+	}
+	return false
+}
+
+func checkMutableGlobals(c *Ctx, f *FC) {
+	r := c.R
+	pkg := f.M.Main()
+	sc := pkg.Types.Scope()
+	isMut := map[*types.Var]bool{}
+	for _, name := range sc.Names() {
+		v, ok := sc.Lookup(name).(*types.Var)
+		if !ok {
+			continue
+		}
+		t := v.Type()
+		mut := typeHoldsMutable(t, 0)
+		if _, isIface := t.Underlying().(*types.Interface); isIface {
+			// an interface-typed variable: decided by the type of its initialiser
+			if init := globalInit(f.Prog, v); init != nil {
+				if rec, ok := init.(*ir.Record); ok {
+					mut = typeHoldsMutable(rec.Type, 0)
+				} else {
+					mut = true
+				}
+			}
+		}
+		if !mut {
+			continue
+		}
+		isMut[v] = true
+		why, known := mutableGlobals[name]
+		if known {
+			r.OK("C07.e2", name, "inventoried", "fc", why)
+		} else {
+			r.Undecided("C07.e2", name, "inventoried", c.Pos(f.M.Fset, v.Pos()), "package-level variable "+name+" of type "+types.TypeString(t, types.RelativeTo(pkg.Types))+" holds shared mutable storage and is not in the inventory: whatever is stored in it (directly or through an alias) survives between definitions and files")
+		}
+	}
+	// every occurrence is the direct operand of a lookup / frozen writer
+	readers := map[string]bool{dictPath + ".TryFind": true, dictPath + ".ContainsKey": true, dictPath + ".Item": true, dictPath + ".Add": true}
+	for _, fn := range f.Prog.Funcs {
+		nf := f.N.Func(fn)
+		allowed := map[ir.Term]bool{}
+		ir.Walk(nf, func(t ir.Term) bool {
+			switch x := t.(type) {
+			case *ir.App:
+				if fr, ok := x.Fun.(*ir.FuncRef); ok && readers[fr.Key] && len(x.Args) > 0 {
+					allowed[x.Args[0]] = true
+				}
+			case *ir.Index:
+				allowed[x.X] = true
+			}
+			return true
+		})
+		esc := map[string]bool{}
+		ir.Walk(nf, func(t ir.Term) bool {
+			if g, ok := t.(*ir.Global); ok && isMut[g.Obj] && !allowed[t] {
+				esc[g.Obj.Name()] = true
+			}
+			return true
+		})
+		for _, g := range sortedKeysB(esc) {
+			r.Bad("C07.e2", g, "escapes in "+fn.Name, c.Pos(f.M.Fset, fn.Decl.Pos()), "the shared mutable variable "+g+" is stored into a value, returned or passed on in "+fn.Name+" instead of being the direct operand of a lookup: every value that receives it aliases one storage, so what one definition (or one package_info block, or one file) adds is seen by all later ones")
 		}
 	}
 }
